@@ -108,6 +108,11 @@ class Inst:
             p = re.sub(r'~~\}|\{~~|~>', '', p)
         if kind in ('math',):
             p = re.sub(r'[$\\{}%&#_^~<>]', '', p) or 'x'      # math is the author's TeX: only characters without TeX meaning, so nesting stays the writer's business
+        if re.search(r'<<\}|\{>>|~>', p) and kind != 'math':
+            # known finding of C08 (OpenDocument prints CriticMarkup comment markers and the substitution divider raw inside verbatim text):
+            # kept out of verbatim payloads here as well (counted), it is reported once, by C08
+            EXCLUDED['critic_marker_in_verbatim(C08 finding)'] = EXCLUDED.get('critic_marker_in_verbatim(C08 finding)', 0) + 1
+            p = re.sub(r'<<\}|\{>>|~>', '', p)
         if kind == 'block' and '%' in p and not self.allow_known:
             # known finding: the LaTeX raw exporter writes \\% for a bare % inside verbatim code blocks -- kept out of block payloads (counted)
             EXCLUDED['percent_in_code_block'] = EXCLUDED.get('percent_in_code_block', 0) + 1
